@@ -17,7 +17,7 @@ pub struct MT935 {
     pub field_20: Field20,
 
     /// Rate change sequences (1-10 occurrences)
-    #[serde(rename = "#")]
+    #[serde(rename = "#", default)]
     pub rate_changes: Vec<MT935RateChange>,
 
     /// Sender to Receiver Information (Field 72)
